@@ -29,7 +29,7 @@ RULE = ("seeded histories (quick: 40 histories x <= 10 steps, thorough: 500 x <=
         "2-3 volumes with repeated names, nested paths, entries restored and trashed again; after every step the listing is "
         "compared with Effects.bagLines of the on-disk state, the step's effect with Effects.check (which entries may disappear) "
         "and the transition with the model's")
-NAMES = [b"a", b"b", b"a b", b"doc.txt", b"caf\xc3\xa9", b"x%y", b"new\nline", b"d1"]
+NAMES = [b"a", b"b", b"a b", b"doc.txt", b"caf\xc3\xa9", b"x%y", b"new\nline", b"d1", b"...", b"....", b"x.trashinfo"]
 
 
 def trash_entries(state):
